@@ -2341,6 +2341,41 @@ def remote_equals_direct(doc):
                     bad.append(f'broadcast {subject} through a LoopCommunicator: process {snapshot(a)}, directly controlled twin {snapshot(b)}')
         except Exception as e:  # noqa
             bad.append(f'a process controlled through LoopCommunicator(LocalCommunicator): {type(e).__name__}: {e}')
+        # a pause that is cancelled by a play before it took effect: the requester of the pause learns so (a cancelled reply), remotely
+        # as directly -- it is not left waiting for ever
+        comm = Comm()
+        a, b = Three(communicator=comm), Three()
+        ta, tb = asyncio.ensure_future(a.step_until_terminated()), asyncio.ensure_future(b.step_until_terminated())
+        await _settle(20)                       # both are inside their waiting step
+        ra = comm.rpc_send(str(a.pid), builder.pause('hold'))
+        rb = b.pause('hold')
+        comm.rpc_send(str(a.pid), builder.play())
+        b.play()
+        await _settle(40)
+
+        async def settled(v):
+            for _ in range(6):
+                if isinstance(v, kiwipy.Future) or asyncio.isfuture(v):
+                    for _ in range(60):
+                        if v.done():
+                            break
+                        await asyncio.sleep(0)
+                    if not v.done():
+                        return 'pending'
+                    if v.cancelled():
+                        return 'cancelled'
+                    try:
+                        v = v.result()
+                    except BaseException as e:  # noqa
+                        return 'raised ' + type(e).__name__
+                else:
+                    return repr(v)
+            return repr(v)
+        got, want = await settled(ra), await settled(rb)
+        if got != want or snapshot(a) != snapshot(b):
+            bad.append(f'pause then play in one loop iteration inside the waiting step: the remote pause reply is {got}, the direct call gives '
+                       f'{want}; process {snapshot(a)}, twin {snapshot(b)}')
+        ta.cancel(), tb.cancel()
         # unknown intent is an error and does nothing
         comm = Comm()
         a = Three(communicator=comm)
